@@ -139,9 +139,17 @@ type caseT struct {
 	Ar   int    `json:"arity"`
 	In   int    `json:"input"`
 	Args []int  `json:"args"`
+	// raw form (option-pair cases): input and call as jq text
+	RawIn   string `json:"raw_input,omitempty"`
+	RawCall string `json:"raw_call,omitempty"`
 }
 
+const rawSep = "\x1f"
+
 func (c caseT) desc() string {
+	if c.RawCall != "" {
+		return "raw" + rawSep + c.RawIn + rawSep + c.RawCall
+	}
 	s := fmt.Sprintf("%s/%d|%d", c.Fn, c.Ar, c.In)
 	for _, a := range c.Args {
 		s += "|" + strconv.Itoa(a)
@@ -150,6 +158,9 @@ func (c caseT) desc() string {
 }
 
 func (c caseT) expr() string {
+	if c.RawCall != "" {
+		return fmt.Sprintf(`(try (%s | [limit(50; %s)] | {n: length}) catch {e: (if type == "string" then .[0:60] else "non-string error" end)})`, c.RawIn, c.RawCall)
+	}
 	call := c.Fn
 	if len(c.Args) > 0 {
 		var as []string
@@ -162,6 +173,9 @@ func (c caseT) expr() string {
 }
 
 func (c caseT) human() string {
+	if c.RawCall != "" {
+		return c.RawIn + " | " + c.RawCall
+	}
 	call := c.Fn
 	if len(c.Args) > 0 {
 		var as []string
@@ -334,6 +348,9 @@ func (r *runner) single(c caseT) {
 
 func (r *runner) count(c caseT, nt bool, res result) {
 	lbl := "arity-" + strconv.Itoa(c.Ar)
+	if c.RawCall != "" {
+		lbl = "option-pairs"
+	}
 	harness.Count(harness.HashBytes([]byte(c.desc())), nt, lbl)
 	if nt && c.Ar >= 1 && harness.WantSample("case", 8) {
 		harness.Sample("case", 8, map[string]any{"call": c.human(), "case": c})
@@ -458,6 +475,102 @@ func TestFunctions(t *testing.T) {
 	harness.Extra("go_registered_name_arity_pairs", goFns)
 }
 
+// ---------------------------------------------------------------------------
+// option objects: pairs of (key, value) members
+//
+// The fixed pool holds a few hand-made option objects; defects that need TWO
+// option members at once (a renderer chosen by one option using the unclamped
+// value of another) are not reached by it.  This test builds option objects
+// from all option keys x boundary values, six members each, with a seed-derived
+// choice that is biased to keys of the same family, and applies every
+// option-taking function to a few inputs with each object.
+
+var optionKeysDisplay = []string{"addrbase", "sizebase", "bits_format", "line_bytes", "display_bytes", "depth", "verbose", "color", "unicode", "array_truncate", "string_truncate", "width", "compact", "raw_string", "skip_gaps", "value_output", "byte_colors", "colors"}
+var optionKeysOther = []string{"indent", "array", "seq", "attribute_prefix", "comma", "comment", "force", "unit", "keep_range", "pad_to_units", "decode_group", "join_string", "raw_output", "slurp", "null_input", "string_input", "include_path", "completion_timeout", "decode_progress", "filenames", "expr", "repl", "arg", "argjson", "show_help"}
+var optionValues = []string{`-1`, `0`, `1`, `2`, `37`, `255`, `1e18`, `0.5`, `""`, `"nope"`, `null`, `true`, `false`, `[]`, `{}`, `"snippet"`, `"hex"`, `"md5"`, `"base64"`, `"truncate"`, `"byte_array"`, `"string"`}
+
+var optionFns = []string{"tovalue", "toactual", "tosym", "todescription", "d", "dd", "dv", "da", "ddv", "display", "hd", "hexdump", "tojson", "to_xml", "to_toml", "to_yaml", "to_csv", "to_jq", "from_xml", "from_csv", "_tovalue", "_display", "_hexdump", "_print_color_json", "_tobits", "options", "_to_json", "_to_xml", "_to_toml", "_to_yaml", "_to_csv"}
+var optionInputs = []string{
+	`([1,2,3] | tobytes)`,
+	`([0x83,0xa1,97,1,0xa1,98,0x92,0xcb,0x3f,0xf0,0,0,0,0,0,0,0xc0,0xa1,99,0xc4,2,0xde,0xad] | tobytes | msgpack)`,
+	`{"a":[1,{"b":"x"}], "doc": {"-k":"v","c":["x","y"]}}`,
+	`[["a","b"],["c","d"]]`,
+	`"<a x=\"1\"><b>t</b></a>"`,
+	`([1,2,3,4,5] | tobits[3:29])`,
+}
+
+func TestOptionPairs(t *testing.T) {
+	x0 := newInterp()
+	have := map[string]bool{}
+	if outs, rerr, cerr := x0.Eval(context.Background(), nil, "scope"); rerr == nil && cerr == nil && len(outs) == 1 {
+		for _, v := range outs[0].([]any) {
+			if s, ok := v.(string); ok {
+				have[s] = true
+			}
+		}
+	}
+	x0.Close()
+	var fns []string
+	for _, f := range optionFns {
+		if have[f+"/1"] {
+			fns = append(fns, f)
+		}
+	}
+	harness.Extra("option_taking_functions", len(fns))
+	nObj := harness.N(4000, 60000)
+	r := &runner{t: t}
+	defer r.reset()
+	h := splitmix(harness.E.Seed ^ 0x6f7074)
+	next := func(n int) int {
+		h = splitmix(h)
+		return int(h % uint64(n))
+	}
+	resume := harness.EnumResume(t.Name())
+	var nb int64
+	for oi := 0; oi < nObj; oi++ {
+		// the object is drawn for every index so that all shards agree
+		keys := optionKeysDisplay
+		if oi%2 == 1 {
+			keys = append(append([]string{}, optionKeysDisplay...), optionKeysOther...)
+		}
+		members := map[string]string{}
+		for len(members) < 6 {
+			members[keys[next(len(keys))]] = optionValues[next(len(optionValues))]
+		}
+		ks := make([]string, 0, len(members))
+		for k := range members {
+			ks = append(ks, k)
+		}
+		sort.Strings(ks)
+		var sb strings.Builder
+		sb.WriteString("{")
+		for i, k := range ks {
+			if i > 0 {
+				sb.WriteString(", ")
+			}
+			fmt.Fprintf(&sb, "%q: %s", k, members[k])
+		}
+		sb.WriteString("}")
+		obj := sb.String()
+		if !harness.Mine(oi) {
+			continue
+		}
+		var cs []caseT
+		for _, f := range fns {
+			for _, in := range optionInputs {
+				cs = append(cs, caseT{Fn: f, Ar: 1, RawIn: in, RawCall: f + "(" + obj + ")"})
+			}
+		}
+		nb++
+		if nb < resume {
+			continue
+		}
+		harness.EnumAt(t.Name(), nb)
+		r.batch(fmt.Sprintf("optpairs:%d", oi), cs)
+	}
+	harness.Extra("option_objects_per_run", nObj)
+}
+
 // regression seeds of repaired defects and of defects named in the design
 func TestSeeds(t *testing.T) {
 	if harness.E.Shard != 0 {
@@ -504,19 +617,29 @@ func TestReplay(t *testing.T) {
 		if strings.HasPrefix(j.Journal, "batch:") {
 			t.Skipf("journal names a whole batch (%s); the restarted shard narrows it down", j.Journal)
 		}
+		if strings.HasPrefix(j.Journal, "raw"+rawSep) {
+			rp := strings.Split(j.Journal, rawSep)
+			if len(rp) == 3 {
+				c.RawIn, c.RawCall = rp[1], rp[2]
+			}
+		}
 		parts := strings.Split(j.Journal, "|")
-		if len(parts) < 2 {
+		if c.RawCall != "" {
+			// parsed above
+		} else if len(parts) < 2 {
 			t.Skipf("unparseable journal %q", j.Journal)
 		}
-		k := strings.LastIndex(parts[0], "/")
-		c.Fn = parts[0][:k]
-		c.Ar, _ = strconv.Atoi(parts[0][k+1:])
-		c.In, _ = strconv.Atoi(parts[1])
-		for _, p := range parts[2:] {
-			a, _ := strconv.Atoi(p)
-			c.Args = append(c.Args, a)
+		if c.RawCall == "" {
+			k := strings.LastIndex(parts[0], "/")
+			c.Fn = parts[0][:k]
+			c.Ar, _ = strconv.Atoi(parts[0][k+1:])
+			c.In, _ = strconv.Atoi(parts[1])
+			for _, p := range parts[2:] {
+				a, _ := strconv.Atoi(p)
+				c.Args = append(c.Args, a)
+			}
 		}
-	} else if err := json.Unmarshal(raw, &c); err != nil || c.Fn == "" {
+	} else if err := json.Unmarshal(raw, &c); err != nil || (c.Fn == "" && c.RawCall == "") {
 		t.Skip("no case in replay file")
 	}
 	fmt.Fprintf(os.Stderr, "replaying %s\n", c.human())
